@@ -63,7 +63,8 @@ def replay(ctx, data):
 MANIFEST = {
     "text": "Lean 4 theorems over a model of Queue/TaskQueue (claim earliest-first, none iff nothing due, soonest keeps the earlier time, "
             "if-missing keeps existing, task names only leave the queue by finish, every running task re-queued at restart for every "
-            "state / number of running tasks / listing order, recurring tasks pending after start) plus tables regenerated from the source "
+            "state / number of running tasks / listing order, recurring tasks pending after start, bounded waiting: a due task is handed out after at "
+            "most as many claims as there are pending entries not later than it – due_task_claimed_within) plus tables regenerated from the source "
             "on every run (start-up guard, event -> follow-up task, task -> possible results, queue_start_tasks) with decide-checked "
             "theorems (object change -> repo sync, request -> parent sync, activation/removal -> revocation, publication -> RRDP update, "
             "recurring handlers only ever follow themselves up); the model is tied to the code by lock-step differential execution on both storage back-ends and by evaluating "
